@@ -226,6 +226,24 @@ type Env struct {
 	compiler *command.Compiler
 	locks    []*recLocker
 	initErrs []string
+	gensMu   sync.Mutex
+	gens     []*Generation
+}
+
+func (e *Env) shutdown() {
+	e.gensMu.Lock()
+	gens := e.gens
+	e.gens = nil
+	e.gensMu.Unlock()
+	for _, g := range gens {
+		if g.dead.Load() {
+			continue
+		}
+		go func(g *Generation) {
+			defer func() { _ = recover() }()
+			g.cmd.Close() // blocks for good if the runner is gone or its worker is parked: then only this goroutine stays
+		}(g)
+	}
 }
 
 func NewEnv() *Env {
@@ -262,6 +280,9 @@ func (e *Env) NewGeneration(workerCtx context.Context) (*Generation, error) {
 		}()
 		g.cmd.Run(workerCtx)
 	}()
+	e.gensMu.Lock()
+	e.gens = append(e.gens, g)
+	e.gensMu.Unlock()
 	return g, nil
 }
 
@@ -402,7 +423,7 @@ type PhaseResult struct {
 // RunPhaseControlled: one generation, the given clients, under the controlled scheduler.
 func (e *Env) RunPhaseControlled(s *Scheduler, plans []ClientPlan) PhaseResult {
 	e.store.SetGate(s.Gate)
-	workerCtx := s.worker.Ctx(context.Background())
+	workerCtx := withGate(s.worker.Ctx(context.Background()), s.Gate)
 	g, err := e.NewGeneration(workerCtx)
 	if err != nil {
 		return PhaseResult{Sched: s, InitErr: err.Error()}
@@ -443,7 +464,7 @@ func (e *Env) RunPhaseFree(seed uint64, plans []ClientPlan, timeout time.Duratio
 	f.seed.Store(seed)
 	e.store.SetGate(f.Gate)
 	base := verifhook.WithController(context.Background(), f)
-	g, err := e.NewGeneration(base)
+	g, err := e.NewGeneration(withGate(base, f.Gate))
 	if err != nil {
 		return "init: " + err.Error()
 	}
